@@ -393,8 +393,9 @@ class BasePrior(eqx.Module):
         shift = low
         scale = high - low
         prior_dist = dist.TransformedDistribution(
-            dist.Uniform(),
+            dist.Uniform(validate_args=True),
             dist.transforms.AffineTransform(shift, scale),
+            validate_args=True,
         )
         self._set_dist(var_name + self.suffix, prior_dist)
         self.reparam_dict[var_name + self.suffix] = infer.reparam.TransformReparam()
@@ -442,8 +443,11 @@ class BasePrior(eqx.Module):
             high_scaled = None
             high = jnp.inf
         prior_dist = dist.TransformedDistribution(
-            dist.TruncatedNormal(low=low_scaled, high=high_scaled),
+            dist.TruncatedNormal(
+                low=low_scaled, high=high_scaled, validate_args=True
+            ),
             dist.transforms.AffineTransform(loc, scale),
+            validate_args=True,
         )
 
         self._set_dist(var_name + self.suffix, prior_dist)
